@@ -84,6 +84,8 @@ class ClientRun:
         self.events = []
         self.ninv = 0
         self.faults = set(cfg.get('faults') or [])
+        self.disconnect_faults = set(cfg.get('disconnect_faults') or [])
+        self.ndisc = 0
         self.returns = {k: untuple(v) for k, v in cfg['returns'].items()}
         co = cfg['coroutines']
         for ns, st in cfg['style'].items():
@@ -172,6 +174,13 @@ class ClientRun:
             self.events.append(('reserved', ns, name, list(args)))
             if n in self.faults:
                 raise Injected('injected fault at client handler %d' % n)
+            if name == 'disconnect':
+                # the k-th disconnect handler invocation of the run fails
+                k = self.ndisc
+                self.ndisc += 1
+                if k in self.disconnect_faults:
+                    raise Injected('injected fault in disconnect handler '
+                                   '%d' % k)
         return handler
 
     def new_sent(self):
@@ -494,6 +503,11 @@ def gen_client_script(rng):
             ops.append(['transport'])
     if rng.random() < 0.3:
         cfg['faults'] = sorted(rng.sample(range(0, 30), rng.randint(1, 3)))
+    if rng.random() < 0.4:
+        # failing disconnect handlers (reserved events are rare among the
+        # handler invocations: aimed at separately)
+        cfg['disconnect_faults'] = sorted(rng.sample(range(0, 3),
+                                                     rng.randint(1, 2)))
     return cfg, ops
 
 
